@@ -2,6 +2,7 @@ package simrt
 
 import (
 	"cmp"
+	"sync/atomic"
 	mrand "math/rand/v2"
 	"time"
 	"fmt"
@@ -230,4 +231,14 @@ func AfterFunc(site string, d time.Duration, f func()) *time.Timer {
 		s.park(t, "timer fired")
 		f()
 	})
+}
+
+// ProbeHook receives the calls of probed functions (rule R8); set per run.
+var ProbeHook atomic.Pointer[func(name string, args []any)]
+
+// Probe is inserted by simgen as first statement of a few functions.
+func Probe(name string, args ...any) {
+	if h := ProbeHook.Load(); h != nil {
+		(*h)(name, args)
+	}
 }
